@@ -237,6 +237,7 @@ class FnWorld:
             del self.accepts[:]
             depth[0] = 0
             self.nres[0] = 0
+            preds0 = sum(self.w.pred_calls)
             try:
                 if op[0] == "reg":
                     d = sc["defs"][op[1]]
@@ -255,7 +256,7 @@ class FnWorld:
                     else:
                         r = f(*pos, **kw)
                     o = ["ran", r[1]] if isinstance(r, tuple) and r and r[0] == "ret" else ["returned", repr(r)[:100]]
-                    out.append({"o": o, "t": self.canon_log(), "nres": self.nres[0], "raw": [list(e) for e in log], "acc": [list(a) for a in self.accepts]})
+                    out.append({"o": o, "t": self.canon_log(), "nres": self.nres[0], "npred": sum(self.w.pred_calls) - preds0, "raw": [list(e) for e in log], "acc": [list(a) for a in self.accepts]})
             except Exception as e:  # noqa
                 k = kind_of_exc(e)
                 if op[0] == "call":
@@ -267,12 +268,16 @@ class FnWorld:
     def is_instance(self, v, mid, pname):
         """the second witness of C01: Python's own isinstance against the declared annotation object"""
         t = self.glb[f"T_{mid}_{pname}"]
+        saved = list(self.w.pred_calls)  # the harness's own isinstance must not count as a consultation (C20)
         try:
-            return isinstance(v, t)
-        except TypeError:
-            from ovld.mro import subclasscheck
+            try:
+                return isinstance(v, t)
+            except TypeError:
+                from ovld.mro import subclasscheck
 
-            return subclasscheck(type(v), t)
+                return subclasscheck(type(v), t)
+        finally:
+            self.w.pred_calls[:] = saved
 
     def canon_val(self, mid, v):
         """vid of a supplied object; None for this method's own default; -2 for anything else (another method's
